@@ -4,6 +4,7 @@ package checks
 
 import (
 	"fmt"
+	"os"
 	"reflect"
 	"runtime/debug"
 	"strings"
@@ -98,7 +99,7 @@ func fresh(s *schema.Struct) reflect.Value {
 }
 
 func hexClip(b []byte) string {
-	if len(b) > 96 {
+	if len(b) > 96 && os.Getenv("VERIF_DEBUG") == "" {
 		return fmt.Sprintf("%x…(%d bytes)", b[:96], len(b))
 	}
 	return fmt.Sprintf("%x", b)
